@@ -82,8 +82,34 @@ def check_values(ctx, component, items):
     ctx.count(component + "-values", n, [], skipped_top_level_symbol_table=n_table)
 
 
+UNDEFINED_SID = "binary-writer-writes-an-id-only-symbol-its-table-does-not-define"
+
+
 def classify_case(line):
+    """a call names a symbol by ID only (a SymbolToken without text, or WriteSymbolFromString("$n")) with an ID far outside
+    any table this Writer can have (>= 1000 here, or negative other than the 'unknown' marker -1)"""
+    import re
+    for m in re.finditer(r"tk,-,(-?\d+)", line):
+        n = int(m.group(1))
+        if n >= 1000 or n <= -2:
+            return UNDEFINED_SID
+    for m in re.finditer(r"SFS x24((?:3\d)+)(?= |$)", line):
+        if int(bytes.fromhex(m.group(1)).decode()) >= 1000:
+            return UNDEFINED_SID
     return None
+
+
+def undefined_sid_sequences():
+    """symbols named by ID only, with an ID no table of the Writer defines: as a value, an annotation, a field name,
+    through WriteSymbolFromString, at top level and nested, before and after legitimate symbols"""
+    out = []
+    for n in ("1000", "2147483648", "-5"):
+        t = "tk,-," + n
+        out += [[["SYM", t]], [["AN", t], ["INT", "1"]], [["BT"], ["FN", t], ["INT", "1"], ["ET"]],
+                [["SYM", "tk,x666f6f,-1"], ["SYM", t], ["SYM", "tk,x666f6f,-1"]],
+                [["BL"], ["AN", "tk,x62,-1"], ["SYM", t], ["EL"], ["FIN"], ["INT", "2"]]]
+    out += [[["SFS", "x2431303030"]], [["BS"], ["SFS", "x2431303030"], ["ES"]]]
+    return out
 
 
 def run(ctx):
@@ -122,7 +148,7 @@ def run(ctx):
                 longs.append(toks + toks)
     for config in ("bw -", "bwl - 2 x61 x666f6f"):
         lines, callss = [], []
-        for q in seqs + longs:
+        for q in seqs + longs + undefined_sid_sequences():
             q2 = q if (q and q[-1][0] == "FIN") else q + [["FIN"]]
             lines.append(config + " " + " ".join(" ".join(c) for c in q2))
             callss.append(q2)
